@@ -958,6 +958,24 @@ broadcast proof fn lemma_assoc(a: Seq<u8>, b: Seq<u8>, c: Seq<u8>)
         lemma_token(encoding, newline, ball);
     }
 
+//@ contract TomlString::write_toml_value ret=res
+    requires self.ok(),
+    ensures
+        res is Ok,
+        old(writer).out@.len() <= final(writer).out@.len(),
+        final(writer).out@.subrange(0, old(writer).out@.len() as int) == old(writer).out@,
+        dec_style(Some(self.encoding), final(writer).out@.subrange(old(writer).out@.len() as int, final(writer).out@.len() as int))
+            == Some(self.decoded.spec_bytes()),
+
+//@ contract TomlKey::write_toml_key ret=res
+    requires self.ok(),
+    ensures
+        res is Ok,
+        old(writer).out@.len() <= final(writer).out@.len(),
+        final(writer).out@.subrange(0, old(writer).out@.len() as int) == old(writer).out@,
+        dec_style(self.encoding, final(writer).out@.subrange(old(writer).out@.len() as int, final(writer).out@.len() as int))
+            == Some(self.decoded.spec_bytes()),
+
 //@ postlude
 impl ValueMetrics {
     // the metrics describe the byte string b (quote-run maxima saturate at 255)
